@@ -55,9 +55,16 @@ def gen_reduce(ctx):
 def gen_full(ctx):
     rng = ctx.rng
     out = []
-    for rep in range(12 if ctx.quick() else 120):
-        m = rng.randint(0, 4)
-        k = rng.randint(0, 4 - m)
+    # every (base degree m, number of spurious elevations k) with m + k <= 4 at distance 0 first (a reduction loop that stops after
+    # two passes only shows for k = 3: seed c08-5 escaped the random (m, k) at one PRNG seed), then random ones
+    plan = [(m_, k_, "0") for m_ in range(0, 5) for k_ in range(0, 5 - m_)]
+    for rep in range(len(plan) + (12 if ctx.quick() else 120)):
+        if rep < len(plan):
+            m, k, forced = plan[rep]
+        else:
+            m = rng.randint(0, 4)
+            k = rng.randint(0, 4 - m)
+            forced = None
         dim = rng.randint(1, 3)
         scale = 1
         for j in range(m + 1, m + k + 1):
@@ -67,7 +74,7 @@ def gen_full(ctx):
         for _ in range(k):
             rows = [oq.elevate(r) for r in rows]
         start_rows = [list(r) for r in rows]
-        dist = rng.choice(["0", "2^-40", "2^-20"])
+        dist = forced or rng.choice(["0", "2^-40", "2^-20"])
         if dist != "0" and m + k >= 1:
             eps = Fraction(1, 2 ** (40 if dist == "2^-40" else 20))
             big = max(abs(x) for r in rows for x in r) or Fraction(1)
